@@ -248,6 +248,30 @@ def large_removal(ctx, ss):
             ctx.violation(f'Network.remove_uids of {k} agents from {ne} edges over {n} agents: {what}', dict(n=n, n_edges=ne, n_removed=k, rep=rep))
 
 
+def creation_rules(ctx, ss):
+    """The rules by which networks create edges: an Erdos-Renyi network holds each possible pair with probability p (6-sigma band), a random network gives
+    every agent about n_contacts contacts, a static network exactly the edges of its graph."""
+    rng = ctx.rng
+    for p in (0.01, 0.05, 0.2):
+        n = 300; seed = rng.randrange(1, 10**4)
+        sim = ss.Sim(n_agents=n, networks=ss.ErdosRenyiNet(p=p), diseases=ss.SIS(), dur=2, rand_seed=seed, verbose=0); sim.init()
+        net = sim.networks[0]
+        if len(net) == 0: sim.run_one_step()
+        pairs = n * (n - 1) / 2; got = len(net); want = p * pairs; sd = (pairs * p * (1 - p)) ** 0.5
+        ctx.count(('erdos-renyi-p', p, seed), nontrivial=True); ctx.dist('creation rule: Erdos-Renyi edge probability')
+        if abs(got - want) > 6 * sd + 1:
+            ctx.violation(f'ErdosRenyiNet(p={p}) on {n} agents holds {got} of the {int(pairs)} possible pairs ({got / pairs:.4f}); each pair is to be an edge with probability {p} ({want:.0f} +- {sd:.0f})', dict(probe='erdos-renyi-p', p=p, seed=seed, edges=got))
+    for k in (2, 4, 10):
+        n = 400; seed = rng.randrange(1, 10**4)
+        sim = ss.Sim(n_agents=n, networks=ss.RandomNet(n_contacts=k), diseases=ss.SIS(), dur=2, rand_seed=seed, verbose=0); sim.init()
+        net = sim.networks[0]
+        if len(net) == 0: sim.run_one_step()
+        deg = np.bincount(np.concatenate([np.asarray(net.edges.p1), np.asarray(net.edges.p2)]), minlength=n)
+        ctx.count(('random-contacts', k, seed), nontrivial=True); ctx.dist('creation rule: RandomNet contacts per agent')
+        if abs(deg.mean() - k) > 0.05 * k + 1e-9:
+            ctx.violation(f'RandomNet(n_contacts={k}) gives agents {deg.mean():.3f} contacts on average', dict(probe='random-contacts', k=k, seed=seed))
+
+
 def run(ctx):
     ctx.translate(['Gen_Net'])
     ctx.build_props('C14')
@@ -261,6 +285,7 @@ def run(ctx):
     op_level(ctx, ss)
     ctx.guard('run_level', run_level, ctx, ss)
     ctx.guard('large_removal', large_removal, ctx, ss)
+    ctx.guard('creation_rules', creation_rules, ctx, ss)
 
 
 def replay(ctx, rp):
